@@ -31,13 +31,14 @@ type Script struct {
 	lines    []string
 	n        int
 	declared map[string]bool
+	defs     map[string]string // define-fun name -> body
 }
 
 // Decl appends a global declaration (sort, datatype, function, closed axiom).
 func (s *Script) Decl(l string) { s.decls = append(s.decls, l) }
 
 func NewScript() *Script {
-	return &Script{declared: map[string]bool{}}
+	return &Script{declared: map[string]bool{}, defs: map[string]string{}}
 }
 
 func (s *Script) emit(l string) { s.lines = append(s.lines, l) }
@@ -78,6 +79,7 @@ func (s *Script) Define(prefix string, t Term) Term {
 	}
 	n := s.freshName(prefix)
 	s.emit(fmt.Sprintf("(define-fun %s () %s %s)", n, t.Sort, t.S))
+	s.defs[n] = t.S
 	return Term{n, t.Sort}
 }
 
@@ -337,4 +339,35 @@ func sortedKeys[V any](m map[string]V) []string {
 	}
 	sort.Strings(ks)
 	return ks
+}
+
+// expandAddr expands define-fun names at the address-forming positions of a Ref term, so that the shape
+// of the address (Fld/Elem/Obj layers) is visible to the loop write-set classification.
+func (s *Script) expandAddr(t string) string {
+	for i := 0; i < 20; i++ {
+		if d, ok := s.defs[t]; ok && (strings.HasPrefix(d, "(Fld ") || strings.HasPrefix(d, "(Elem ") || strings.HasPrefix(d, "(Obj ") || strings.HasPrefix(d, "(iref ")) {
+			t = d
+			continue
+		}
+		break
+	}
+	switch {
+	case strings.HasPrefix(t, "(Fld "):
+		inner := firstArg(t[len("(Fld "):])
+		rest := t[len("(Fld ")+len(inner):]
+		return "(Fld " + s.expandAddr(inner) + rest
+	case strings.HasPrefix(t, "(Elem "):
+		inner := firstArg(t[len("(Elem "):])
+		rest := t[len("(Elem ")+len(inner):]
+		return "(Elem " + s.expandAddr(inner) + rest
+	case strings.HasPrefix(t, "(iref "):
+		inner := strings.TrimSuffix(t[len("(iref "):], ")")
+		if d, ok := s.defs[inner]; ok && strings.HasPrefix(d, "(mkIface ") {
+			parts := strings.SplitN(d[len("(mkIface "):len(d)-1], " ", 2)
+			if len(parts) == 2 {
+				return s.expandAddr(parts[1])
+			}
+		}
+	}
+	return t
 }
